@@ -49,8 +49,34 @@ TRef == /\ IsEvent("Ref")
                        THEN <<Item("ref-target", "reference in artefact does not resolve to the intended file", e)>>
                   ELSE <<>>)
 
+(* The module specifier that a generated declaration file (at `at`) uses for the schema declaration file written at `target`:  *)
+(* relative, and resolving to the target after the documented TypeScript -> JavaScript extension rewrite of its file name.   *)
+EndsWith(n, suf) == Len(n) >= Len(suf) /\ SubSeq(n, Len(n) - Len(suf) + 1, Len(n)) = suf
+Strip(n, suf) == SubSeq(n, 1, Len(n) - Len(suf))
+JsNameOf(n) == IF EndsWith(n, ".d.ts") THEN Strip(n, ".d.ts") \o ".js"
+               ELSE IF EndsWith(n, ".d.mts") THEN Strip(n, ".d.mts") \o ".mjs"
+               ELSE IF EndsWith(n, ".d.cts") THEN Strip(n, ".d.cts") \o ".cjs"
+               ELSE IF EndsWith(n, ".mts") THEN Strip(n, ".mts") \o ".mjs"
+               ELSE IF EndsWith(n, ".cts") THEN Strip(n, ".cts") \o ".cjs"
+               ELSE IF EndsWith(n, ".tsx") THEN Strip(n, ".tsx") \o ".js"
+               ELSE IF EndsWith(n, ".ts") THEN Strip(n, ".ts") \o ".js"
+               ELSE n
+TSpecifier == /\ IsEvent("Specifier")
+              /\ LET e == Rec[l]
+                     want == Normalize(Front(e.target) \o <<JsNameOf(Last(e.target))>>)
+                 IN Report(IF e.spec = <<>> THEN <<Item("specifier-missing", "the declaration file imports no schema module", e)>>
+                           ELSE IF ~StartsRelative(e.spec) THEN <<Item("specifier-not-relative", "the schema module specifier does not start with ./ or ../", e)>>
+                           ELSE IF ResolveRef(e.at, e.spec) # want
+                                THEN <<Item("specifier-target", "the schema module specifier does not resolve to the schema declaration file (after the TS -> JS extension rewrite)", e)>>
+                           ELSE <<>>)
+(* every entry of a source map's `sources` denotes one of the project's input files *)
+TSources == /\ IsEvent("Sources")
+            /\ LET e == Rec[l]
+                   bad == {i \in DOMAIN e.sources : ~\E j \in DOMAIN e.inputs : ResolveRef(e.at, e.sources[i]) = Normalize(e.inputs[j])}
+               IN Report(IF bad = {} THEN <<>> ELSE <<Item("sources-target", "a `sources` entry does not resolve to an input file", e)>>)
+
 Init == l = 1
-Next == TNorm \/ TResolve \/ TRel \/ TRef
+Next == TNorm \/ TResolve \/ TRel \/ TRef \/ TSpecifier \/ TSources
 Spec == Init /\ [][Next]_l
 Done == PrintT(<<"DONE", ToJson([consumed |-> TLCGet("stats").diameter - 1])>>)
 =============================================================================
